@@ -25,6 +25,9 @@ OPS = [
     ("plus1->minus1", r" \+ 1\b", " - 1"), ("minus1->plus1", r" - 1\b", " + 1"), ("pluseq1->pluseq2", r" \+= 1;", " += 2;"),
     ("true->false", r"\btrue\b", "false"), ("false->true", r"\bfalse\b", "true"),
     ("drop-not", r"\bif !", "if "), ("add-not", r"\bif (?!let\b|!)", "if !"),
+    # a state update that is forgotten; a numeric constant that is off by one
+    ("delete-stmt", r"^\s*self\.[\w.]+(\s*[-+]?=[^=]|\.(push|push_back|push_str|clear|pop|insert|truncate)\().*;\s*$", ""),
+    ("const-plus1", r"\b(\d{2,5})\b", "+1"), ("const-minus1", r"\b(\d{2,5})\b", "-1"),
 ]
 PARSER_ORDER = "C03 C04 C05 C06 C02 C10 C12 C14 C15 C16 C17 C13 C01 C07 C19 C09 C08 C20 C18 C11".split()
 SAPHYR_ORDER = "C07 C08 C09 C19 C20 C18 C13 C12 C16 C15 C03 C01 C02 C04 C05 C06 C10 C14 C17 C11".split()
@@ -59,7 +62,12 @@ def apply(repo, cand):
     m = re.compile(pat).match(line, col) or re.compile(pat).search(line, col)
     if not m:
         return None
-    new = line[: m.start()] + re.sub(pat, rep, line[m.start() : m.end()]) + line[m.end() :]
+    if name == "delete-stmt":
+        new = line[: len(line) - len(line.lstrip())] + "// (deleted) " + line.strip()
+    elif name.startswith("const-"):
+        new = line[: m.start()] + str(int(m.group(1)) + (1 if rep == "+1" else -1)) + line[m.end() :]
+    else:
+        new = line[: m.start()] + re.sub(pat, rep, line[m.start() : m.end()]) + line[m.end() :]
     lines[i] = new
     open(p, "w").write("\n".join(lines))
     return line.strip(), new.strip()
@@ -87,7 +95,8 @@ def main():
         c = candidates("/repo")
         stride = int(sys.argv[2]) if len(sys.argv) > 2 else 1
         off = int(sys.argv[3]) if len(sys.argv) > 3 else 0
-        sel = c[off::stride]
+        ops = os.environ.get("AUTOMUT_OPS")
+        sel = [x for x in c if not ops or re.search(ops, x[2])][off::stride]
         print(len(c), "candidates,", len(sel), "selected")
         for x in sel[:20]:
             print(x)
@@ -128,7 +137,8 @@ def main():
     lane, stride, off = sys.argv[2], int(sys.argv[3]), int(sys.argv[4])
     repo, harness = lane + "/repo", lane + "/harness"
     env = f"CARGO_NET_OFFLINE=true VERIF_ROOT={lane}/out VERIF_REPO={repo}"
-    sel = candidates(repo)[off::stride]
+    ops = os.environ.get("AUTOMUT_OPS")  # optional regex on the operator name
+    sel = [c for c in candidates(repo) if not ops or re.search(ops, c[2])][off::stride]
     done = set()
     tsv = lane + "/automut.tsv"
     if os.path.exists(tsv):
